@@ -29,6 +29,15 @@ CHECKS = {
     "C09": dict(level=TV, engine="fwsym+pysym", technique="symbolic execution of the emitted C++ (IR) with memory/UB monitors under the CPython path condition; heap sampled per pass; ASan/UBSan replay",
                 text="bounded symbolic memory-safety and leak checking of list/str skeletons over N passes, indices constrained by the CPython run to be IndexError-free",
                 note="trusted: fwsym memory model (validated by ASan/UBSan replay), mock String keeps characters inline (core String heap traffic outside the claim)"),
+    "C12": dict(level="other", engine="pysym", technique="symbolic execution of the real target()/pio helpers with every effect a stub whose failure is a symbolic boolean (fault schedule chosen by the solver); claims as z3 implications over the fault variables",
+                text="all feasible fault schedules x upload flag x platform/board classes explored symbolically through the real target(); ordering, propagation and content claims decided on each path's effect log",
+                note="effects stubbed (subprocess, pathlib, tempfile, sys); parse/emit run concretely on three fixed scripts"),
+    "C13": dict(level="other", engine="pysym", technique="z3 finite-domain string query (partition), CrossHair/z3 on _format_lib_section, exhaustive enumeration of the finite registry x near-miss domain and of awkward ports/library lists through the real functions",
+                text="registry exactness over the finite (registry + near-miss)^2 domain (enumeration, stated), partition by z3, INI round-trip through configparser for awkward ports/lists, de-duplication lemma by CrossHair",
+                note="only the partition query and the lib-section lemma are solver-quantified; the rest is exhaustive over stated finite domains (a dict lookup on a symbolic string is not encoded)"),
+    "C14": dict(level="other", engine="pysym", technique="symbolic execution of the real _collect_required_libraries/_program_contains and emit over Program objects whose shape (slot kinds, placements) is solver-chosen; parser link + clang front end on the same shapes",
+                text="all Program shapes within the bound (<=3 device slots x 5 kinds x 3 placements) explored by symbolic path enumeration; libs <=> includes <=> instantiated classes on every path",
+                note="configuration-space exploration: the solver enumerates shapes, there is no data quantification"),
     "C15": dict(level="other", engine="fwsym+pysym", technique="symbolic execution of the emitted firmware IR over symbolic input signals/clock; spec claims decided per path by SMT; host Button by pysym",
                 text="bounded symbolic checking of button sampling/edges over N passes, potentiometer reads (differential vs CPython) and the real ultrasonic helper over a 2-call history reaching every static state, with symbolic echoes and clock",
                 note="trusted: mock core, clock model (delay and pulseIn advance a lower bound), z3/cvc5; N<=3 passes quick"),
